@@ -569,18 +569,21 @@ class LoopMixin:
         if c is not None:
             return c
         lo, hi = Lin.of(r.lo), Lin.of(r.hi)
-        span = hi - lo
+        step = abs(r.step)
+        span = (hi - lo) if r.step > 0 else (lo - hi)      # distance covered in the direction of the step
         if not self.decide_ge0(span - 1):
             c = Lin.const(0)
-        elif r.step == 1:
+        elif step == 1:
             c = span
         else:
             s = self.fresh('count')
             self.store.declare(s, 1, None, info=f'len(range({lo}, {hi}, {r.step}))')
             cs = Lin.sym(s)
-            # step*(c-1) <= span-1  and  span <= step*c
-            self.store.assume_ge0(span - 1 - (cs - 1).scale(r.step))
-            self.store.assume_ge0(cs.scale(r.step) - span)
+            # |step|*(c-1) <= span-1  and  span <= |step|*c
+            self.store.assume_ge0(span - 1 - (cs - 1).scale(step))
+            self.store.assume_ge0(cs.scale(step) - span)
+            self.store.__dict__.setdefault('definitional', []).extend(
+                [self.store.canon(span - 1 - (cs - 1).scale(step)), self.store.canon(cs.scale(step) - span)])
             c = cs
         r._count = c
         return c
@@ -593,6 +596,8 @@ class LoopMixin:
         if isinstance(itv, GenCallV):
             # a generator consumed by something other than a for statement (join, sum, zip...): drained into a list first
             itv = self.drain_generator(itv, node)
+        if isinstance(itv, ClassV) and self.is_enum(itv.ci):
+            itv = ListV(items=list(self.enum_members(itv.ci)))
         if isinstance(itv, RangeV) and itv.step != 1:
             c = self.range_count(itv)
             k = self.fresh('k')
@@ -748,6 +753,8 @@ class LoopMixin:
 
     def st_For(self, st):
         itv = self.resolve(self.eval(st.iter))
+        if isinstance(itv, ClassV) and self.is_enum(itv.ci):
+            itv = ListV(items=list(self.enum_members(itv.ci)))      # iterating an Enum class: its members in order
         if isinstance(itv, GenCallV):
             return self._for_generator(st, itv)
         # exact iteration over small concrete collections
